@@ -178,7 +178,7 @@ def run_scales(acc, nt):
                 acc.ev()
                 acc.nt((nt, name, sp, str(x)))
                 want = a * x + b
-                xm = x if nt == "Fraction" else float(x)
+                xm = x if nt == "Fraction" else (Decimal(x.numerator) / Decimal(x.denominator) if nt == "Decimal" else float(x))
                 o = call(lambda: ureg.Quantity(xm, ureg.parse_units(sp)).to("kelvin").magnitude)
                 case = {"registry": nt, "scale": name, "spelling": sp, "x": str(x)}
                 ok = o[0] == "ok" and ((nt == "Fraction" and Fraction(o[1]) == want) or (nt != "Fraction" and abs(float(o[1]) - float(want)) <= 1e-12 * max(1.0, abs(float(want)))))
@@ -190,7 +190,7 @@ def run_scales(acc, nt):
     # fixed points everybody knows
     for x, u, y, v in ((0, "degC", 32, "degF"), (100, "degC", 212, "degF"), (-40, "degC", -40, "degF"), (80, "degRe", 100, "degC"), (0, "degRe", 0, "degC"), (Fraction(49167, 100), "degR", 0, "degC")):
         acc.ev()
-        xm = x if nt == "Fraction" else float(x)
+        xm = x if nt == "Fraction" else (Decimal(Fraction(x).numerator) / Decimal(Fraction(x).denominator) if nt == "Decimal" else float(x))
         o = call(lambda: ureg.Quantity(xm, u).to(v).magnitude)
         if o[0] != "ok" or abs(float(o[1]) - float(y)) > 1e-10:
             acc.violation(["scale", ureg.get_name(u), "fixed-point-wrong", nt], {"registry": nt, "from": [str(x), u], "to": v}, y, repr(o[1]))
